@@ -236,7 +236,7 @@ fn check_tree_pair(syn: &Syn, make: &dyn Fn(&Syn) -> Option<(String, String, Str
     }
     let first_rule = rules[0].0.clone();
     let mut cur = syn.clone();
-    let mut budget = 1500;
+    let mut budget = crate::util::shrink_budget() / 2;
     'outer: loop {
         for c in syn_shrinks(&cur) {
             budget -= 1;
